@@ -83,3 +83,38 @@ def c02(case):
         tk = tokenize_piece(q) if isinstance(q, str) else None
         pieces.append(tk if tk is not None else ["?" + str(q)[:20]])
     return {"exc": "none", "qqs": list(qqs), "pieces": pieces}
+
+
+# ---------------------------------------------------------------------------
+# C05: elided lists of sections / lots
+
+def _lot_int(s):
+    m = re.fullmatch(r"L(\d+)", s)
+    return int(m.group(1)) if m else -1
+
+
+def c05(case):
+    import pytrs
+    a = case["args"]
+    text, flavour = a["text"], a["flavour"]
+    try:
+        if flavour == "find_sec":
+            secs = pytrs.find_sec(text)
+            return {"exc": "none", "obs": [[int(s) for s in secs]], "nonseq": None, "shared": True, "raw": secs}
+        if flavour == "plss":
+            d = pytrs.PLSSDesc(a["prefix"] + text + a["suffix"])
+            secs = [int(t.sec) if t.sec.isdigit() else -1 for t in d.tracts]
+            shared = all(t.desc == a["block"] for t in d.tracts)
+            nonseq = any(f == "nonsequential_sections" for f in d.w_flags)
+            on_tracts = all(("nonsequential_sections" in t.w_flags) == nonseq for t in d.tracts)
+            return {"exc": "none", "obs": [secs], "nonseq": nonseq and on_tracts, "shared": shared,
+                    "raw": [(t.trs, t.desc) for t in d.tracts]}
+        if flavour == "lots":
+            t = pytrs.Tract(text, parse_qq=True)
+            lots = [_lot_int(x) for x in t.lots]
+            ilots = [x if isinstance(x, int) else -1 for x in t.ilots]
+            nonseq = any(f == "nonsequential_lots" for f in t.w_flags)
+            return {"exc": "none", "obs": [lots, ilots], "nonseq": nonseq, "shared": True, "raw": list(t.lots)}
+    except Exception as e:  # noqa
+        return _exc(e)
+    raise ValueError(flavour)
